@@ -228,6 +228,31 @@ static std::string cmd_exec(const std::vector<std::string>& a) {
     return o.str();
 }
 
+// FLAGS <hex of the modification string> : svf_parse_flags(STANDARD, mod) in a child process (it calls exit(1) on rejection)
+static std::string cmd_flags(const std::vector<std::string>& a) {
+    valtype raw; unhex(a.size() > 1 ? a[1] : "-", raw);
+    std::string mod(raw.begin(), raw.end());
+    int fds[2];
+    if (pipe(fds) != 0) return "HARNESS-EXC pipe";
+    pid_t pid = fork();
+    if (pid == 0) {
+        close(fds[0]);
+        unsigned int r = hx_svf_parse_flags(hx_standard_flags(), mod.c_str());
+        std::string s = std::to_string(r) + " " + hx_svf_string(r, ",");
+        (void)!write(fds[1], s.c_str(), s.size());
+        _exit(0);
+    }
+    close(fds[1]);
+    std::string got; char buf[4096]; ssize_t n;
+    while ((n = read(fds[0], buf, sizeof buf)) > 0) got.append(buf, n);
+    close(fds[0]);
+    int status = 0; waitpid(pid, &status, 0);
+    if (WIFSIGNALED(status)) return "CRASH sig=" + std::to_string(WTERMSIG(status));
+    if (WEXITSTATUS(status) == 1) return "REJECT";
+    if (WEXITSTATUS(status) != 0) return "EXIT " + std::to_string(WEXITSTATUS(status));
+    return "OK " + got;
+}
+
 static std::string cmd_run(const std::vector<std::string>& a, bool verbose) {
     RunCfg c = parse_cfg(a);
     std::ostringstream o;
@@ -277,6 +302,7 @@ static std::string dispatch(const std::string& line) {
         if (a[0] == "RUN") return cmd_run(a, false);
         if (a[0] == "RUNV") return cmd_run(a, true);
         if (a[0] == "EXEC") return cmd_exec(a);
+        if (a[0] == "FLAGS") return cmd_flags(a);
         if (a[0] == "SESSION") return cmd_session(a, false);
         if (a[0] == "SESSIONV") return cmd_session(a, true);
     } catch (const std::exception& e) {
